@@ -19,4 +19,4 @@ For each change k = 1..{n} write into /tmp/seed_{pid}/k/ :
 
 How to run things: `cd /tmp/wt_{pid} && PYTHONPATH=/tmp/wt_{pid} /venv/bin/python ...` (check `import loki; loki.__file__` points into the worktree). The full pinned test suite command is
   cd /tmp/wt_{pid} && PYTHONPATH=/tmp/wt_{pid} /venv/bin/python -m pytest -ra -q -p no:cacheprovider --timeout=900 --continue-on-collection-errors -n 4
-(takes several minutes; run the test files relevant to the touched module first, and the full suite once per change before you finish; compare failures with a run on the unmodified tree - some tests may fail or be skipped on the unmodified tree already, only NEW failures count). There is no network. Between changes reset the worktree with `git -C /tmp/wt_{pid} checkout -- .` . When done, leave the worktree clean (checkout -- .) and report, for each change, a one-paragraph summary and the confirmation results (demo exit codes before/after, new test failures = none).""")
+(takes several minutes; run the test files relevant to the touched module first, and the full suite once per change before you finish; compare failures with a run on the unmodified tree - some tests may fail or be skipped on the unmodified tree already, only NEW failures count). There is no network. Do NOT use `git stash` (the stash is shared by all worktrees of the repository and other people work in sibling worktrees); keep copies with `git diff > file` instead. Between changes reset the worktree with `git -C /tmp/wt_{pid} checkout -- .` . When done, leave the worktree clean (checkout -- .) and report, for each change, a one-paragraph summary and the confirmation results (demo exit codes before/after, new test failures = none).""")
